@@ -415,7 +415,11 @@ def gen_literal(r):
             elif t == 8 and kind == "str":
                 cp = r.choice([r.randrange(0x20, 0x7f), r.randrange(0xa0, 0xd800), r.randrange(0xe000, 0x110000), 0x10ffff, 0])
                 op, cl = r.choice(["{}", "()", "[]", "<>"])
-                out_src.append("\\u" + op + rand_case(r, "%x" % cp) + cl); out_val.append(chr(cp))
+                # any number of leading zeros spells the same scalar value
+                hx = "%x" % cp
+                if r.random() < 0.35:
+                    hx = hx.rjust(r.choice([4, 6, 8, 9, 10, 12, 16, 17, 33, 70]), "0")
+                out_src.append("\\u" + op + rand_case(r, hx) + cl); out_val.append(chr(cp))
             elif t == 9 and kind == "str":
                 cp = r.choice([r.randrange(0x20, 0x7f), r.randrange(0xa0, 0xd800), r.randrange(0xe000, 0x10000)])
                 # unbraced form reads every following hex digit: follow it by a non-hex character
